@@ -48,15 +48,24 @@ def replay(path):
     if doc.get('replay_kind') == 'cache':
         from contracts import cache_replay as CR
         w = doc['cache_witness']
-        c = CR.build(w['pre']['mem'], w['pre']['A'], w['pre']['S'])
+        st0 = CR.dec_state(w['pre'])
+        args = CR.dec_args(w['args'])
+        c = CR.build(st0['mem'], st0['A'], st0['S'])
         pre = CR.snap(c)
         out, exc = None, None
         try:
-            out = getattr(c, w['op'])(*w['args']) if hasattr(c, w['op']) else None
+            if w['op'] == 'getitem':
+                out = c[args[0]]
+            elif w['op'] == 'setitem':
+                c[args[0]] = args[1]
+            elif w['op'] == 'delitem':
+                del c[args[0]]
+            else:
+                out = getattr(c, w['op'])(*args)
         except Exception as e:       # noqa
             exc = e
-        bad = CR.judge(w['op'], tuple(w['args']), pre, CR.snap(c), out, exc)
-        print('cache in state %s, operation %s%r -> %s' % (json.dumps(w['pre']), w['op'], tuple(w['args']), json.dumps(CR._j(CR.snap(c)))))
+        bad = CR.judge(w['op'], args, pre, CR.snap(c), out, exc)
+        print('cache in state %r, operation %s%r -> %r' % (st0, w['op'], args, CR._j(CR.snap(c))))
         if bad:
             print('REPRODUCED: %s is violated by the real klepto._archives.cache on this input (%s)' % (bad, doc.get('obligation')))
             return 1
